@@ -377,11 +377,17 @@ VALGRIND = ["valgrind", "-q", "--tool=memcheck", "--error-exitcode=0", "--error-
 
 
 def run_C15(ctx):
+    def hung():   # a library call that never returns has been seen: the verdict is settled, further modes would only wait for their watchdogs
+        return any(":hang" in v["key"] or v["key"].startswith("hang:") or "watchdog" in v.get("msg", "") for v in ctx.agg.viols)
     ctx.run("asm", "eng_thr.c", mode="prefill")
     for lvl in (("avx2", "sse", "base") if not ctx.thorough else ("avx2", "avx", "sse", "base", "avx512")):   # same differential under lesser dispatcher outcomes
-        ctx.run("asm", "eng_thr.c", mode="prefill:" + lvl)
+        if not hung():
+            ctx.run("asm", "eng_thr.c", mode="prefill:" + lvl)
     for lvl in ("native", "avx2", "avx", "sse", "base"):       # library data read-only under several dispatcher outcomes
-        ctx.run("so", "eng_thr.c", mode="ro:" + lvl, nshards=1)
+        if not hung():
+            ctx.run("so", "eng_thr.c", mode="ro:" + lvl, nshards=1)
+    if hung():
+        return
     ctx.run("asm", "eng_thr.c", mode="cold")
     # memcheck definedness tracking: all caller memory undefined, result digests must come out fully defined
     ctx.run("asm", "eng_thr.c", mode="taint", wrapper=VALGRIND, timeout=3000 if not ctx.thorough else 14000)
@@ -452,9 +458,9 @@ PROPS = {
     "C06": dict(
         run=run_C06, level="fault_enumeration",
         coverage=infl_cov(
-            "hostile inputs: pure random bytes (with and without valid magic), 14 grammar-level fault classes injected by the generator with 80 bytes of trailing input (BTYPE=3, LEN/NLEN, HLIT/HDIST>29, over-subscribed code-length / lit-len / distance sets, repeat without previous, repeat overrun, missing EOB code, symbols 286/287, distance 30/31, unassigned code of an incomplete set, distance beyond output), and single-bit flips / byte substitutions / truncations / trailer edits of valid streams from all three sources; each decoded stateless with output sizes {0,1,7,8,exact-1,exact,exact+1,big} and streaming with random chunking in fresh guard-page mappings, in every wrapper mode, on the assembly build and the all-C ASan+bounds build; distinct by hash of the mutated stream",
+            "hostile inputs: pure random bytes (with and without valid magic), 16 grammar-level fault classes injected by the generator with 80 bytes of trailing input (BTYPE=3, LEN/NLEN, HLIT/HDIST>29, over-subscribed code-length / lit-len / distance sets, repeat without previous, repeat overrun, missing EOB code, symbols 286/287, distance 30/31, unassigned code of an incomplete set, distance beyond output), and single-bit flips / byte substitutions / truncations / trailer edits of valid streams from all three sources; each decoded stateless with output sizes {0,1,7,8,exact-1,exact,exact+1,big} and streaming with random chunking in fresh guard-page mappings, in every wrapper mode, on the assembly build and the all-C ASan+bounds build; distinct by hash of the mutated stream",
             "a 'finished' result is accepted only if the independent decoder also decodes the stream (lenient exactly where RFC 1951 is) to the same bytes and, in verifying modes, the stored trailer matches; return codes must be documented ones; every call must make progress or report; injected single faults must return the documented class; ISA-L refusing what only the lenient reference accepts is counted, not alarmed (alarmed when zlib accepts it too)"),
-        floors=infl_floor(8000, lambda ctx, agg: (["fault classes detected: %d of 14" % len(agg.cnts.get("faults_detected", {}))] if len(agg.cnts.get("faults_detected", {})) < 14 else []) + (["negative return codes seen: %s" % sorted(k for k in agg.cnts.get("return_codes", {}) if k.startswith("-"))] if len([k for k in agg.cnts.get("return_codes", {}) if k.startswith("-")]) < 6 else [])),
+        floors=infl_floor(8000, lambda ctx, agg: (["fault classes detected: %d of 16" % len(agg.cnts.get("faults_detected", {}))] if len(agg.cnts.get("faults_detected", {})) < 16 else []) + (["negative return codes seen: %s" % sorted(k for k in agg.cnts.get("return_codes", {}) if k.startswith("-"))] if len([k for k in agg.cnts.get("return_codes", {}) if k.startswith("-")]) < 6 else [])),
         assumptions=["HDIST 30/31 is refused by ISA-L and zlib but not forbidden by RFC 1951: only the returned class is compared", "reserved gzip FLG bits and zlib CINFO > 7 are not treated as errors by the oracle (the property does not claim them)"],
     ),
     "C10": dict(
